@@ -31,6 +31,8 @@ var c09ValuePrograms = []string{
 	"{'" + strings.Repeat("k", 100) + "': 1, 'a': 2, 'b': 3, 'c': [4], 'd': {'e': 5, 'f': 6}}", "x = {}; x['" + strings.Repeat("长", 60) + "'] = 1; x.a = 2; x.b = {'p': 1, 'q': 2, 'r': 3}; x", "{'a': 1, 'bb': 2, 'ccc': 3, 'dddd': 4, '" + strings.Repeat("e", 300) + "': 5, 'f': 6, 'g': 7}",
 	"&c = 1 + 1; &c.x = &c; &c", "&c = 1; &c.a = [&c]; &c", "x = [1]; &c = 1; &c.a = x; x.push(&c); x", "&c = 1; &c.a = 1; [&c, &c]", "&c = 1; &c.a = [1]; {'p': &c, 'q': &c.a}", "x = {'a': 1}; y = {'__proto__': x}; [x, y, {'__proto__': x}]",
 	"x = 9999999999.0; x = x*x; x = x*x; x = x*x; x = x*x; x = x*x; x", "x = 9999999999.0; x = x*x; x = x*x; x = x*x; x = x*x; x = x*x; [x - x]", "x = 9999999999.0; x = x*x; x = x*x; x = x*x; x = x*x; x = x*x; {'a': -x}",
+	// dict keys over the text alphabet (control characters, JSON / HTML specials, line separators): a key is text like any other
+	"{'\\t': 1}", "{'a\\tb': [1], 'c': 2}", "{'\\n': {'\\r': 1}}", "{'\x01': 1}", "x = {}; x['\x1f'] = 1; x['\x7f'] = [x['\x1f']]; x", "{'<>&': 1, '\u2028': 2, '\u2029': 3}", "{'\\\\': 1, '\\'': 2, '\"': 3}", "{'\x02k': {'\x03': [1, {'\x04': null}]}}", "&c = 1; &c.a = {'\\t': 1}; &c",
 	"[1..5]", "[[]] * 3", "x = [1,2,3]; x[1:]", "'x' + 'y'", "`t{1}{'s'}`", "2d1", "[2d1, f]",
 }
 
